@@ -35,22 +35,48 @@ def plan_C14(ctx):
         ctx.replay("Gen_C14.tla", "Gen_C14_tu.cfg", h, timeout=3000)
         ntr, steps, ids = 60, 500, 8
     ctx.exhaustive = True
-    trace = ctx.path("c14.ndjson")
-    s = ctx.run_harness(h, ["--record", str(ntr), "--steps", str(steps), "--ids", str(ids), "--seed", str(ctx.seed),
-                            "--trace", trace], tag="record")
-    ok, det = ctx.validate_trace(trace, "Trace_C14.tla", "Trace_C14.cfg", n_events=s["counters"]["events"], n_traces=ntr)
+    trace_stage(ctx, h, ["--record", str(ntr), "--steps", str(steps), "--ids", str(ids)], "Trace_C14.tla", "Trace_C14.cfg",
+                n_traces=ntr)
+
+
+def trace_stage(ctx, h, rec_args, module, cfg, tag="record", n_traces=1):
+    """direction B: record from the real code, validate with a Trace_* spec, turn a rejection into a violation"""
+    trace = ctx.path(ctx.pid.lower() + "-" + tag + ".ndjson")
+    s = ctx.run_harness(h, list(rec_args) + ["--seed", str(ctx.seed), "--trace", trace], tag=tag)
+    ok, det = ctx.validate_trace(trace, module, cfg, tag=tag + "-tlc", n_events=s["counters"].get("events"), n_traces=n_traces)
     if not ok:
-        keep = save_trace(ctx, trace, det.get("prefix", 0))
-        ctx.add_violation("C14", "trace:" + str(det.get("invariant") or "rejected"),
+        keep = save_trace(ctx, trace, det.get("prefix", 0), tag)
+        ctx.add_violation(ctx.pid, "trace:" + str(det.get("invariant") or "rejected"),
                           {"trace": keep, "seed": ctx.seed, "prefix": det.get("prefix")}, det, stage="B")
-    ctx.evaluations += s["counters"]["events"]
+    ctx.evaluations += s["counters"].get("events", 0)
+    return ok
 
 
-def save_trace(ctx, trace, prefix):
+# ----------------------------------------------------------------------------- C20
+def plan_C20(ctx):
+    b = vcore.build()
+    h = hbin(b, "h_strings")
+    ctx.rule = ("A: every string of <= MaxLen code points over a 9-symbol alphabet (1-4 byte code points, space, tab, "
+                "',', '-', digit) with every utility's predicted result (all code-point ranges in and out of bounds), "
+                "and every list of <= 3 ranges with end points in -1..5 (all 784 pairs with all relations); "
+                "non-trivial = string of >= 2 code points or list of >= 2 ranges. B: random long strings / wide ranges "
+                "recorded from the real functions and checked by Trace_C20.")
+    ctx.assumptions = ["inputs are well-formed UTF-8 and ranges satisfy start <= finish, position >= 0 (header preconditions)",
+                       "Overlaps/Contains(range)/SharesBorder are compared exactly only for proper ranges (start < finish)"]
+    ctx.model_check("MC_C20.tla", "MC_C20.cfg")
+    cfg = "Gen_C20_q.cfg" if ctx.quick else "Gen_C20_t.cfg"
+    ctx.constants = {"A": "MaxLen=%d, |Alphabet|=9, ranges in [-1,5], lists <= 3" % (4 if ctx.quick else 5),
+                     "B": "%d recorded calls" % (4000 if ctx.quick else 40000)}
+    ctx.replay("Gen_C20.tla", cfg, h)
+    ctx.exhaustive = True
+    trace_stage(ctx, h, ["--record", str(4000 if ctx.quick else 40000)], "Trace_C20.tla", "Trace_C20.cfg")
+
+
+def save_trace(ctx, trace, prefix, tag=""):
     """keep the prefix of a rejected trace (up to and including the offending event) as the replay artefact"""
     d = os.path.join(vcore.BUILD, "replays")
     os.makedirs(d, exist_ok=True)
-    dst = os.path.join(d, "%s-trace-%d.ndjson" % (ctx.pid, ctx.seed))
+    dst = os.path.join(d, "%s-trace-%s%d.ndjson" % (ctx.pid, tag, ctx.seed))
     with open(trace) as f, open(dst, "w") as g:
         for i, line in enumerate(f):
             if prefix and i >= prefix:
@@ -61,10 +87,11 @@ def save_trace(ctx, trace, prefix):
 
 PLANS = {
     "C14": plan_C14,
+    "C20": plan_C20,
 }
 
-HARNESS_OF = {"C14": "h_graph"}
-TRACE_SPEC_OF = {"C14": ("Trace_C14.tla", "Trace_C14.cfg")}
+HARNESS_OF = {"C14": "h_graph", "C20": "h_strings"}
+TRACE_SPEC_OF = {"C14": ("Trace_C14.tla", "Trace_C14.cfg"), "C20": ("Trace_C20.tla", "Trace_C20.cfg")}
 
 
 def replay(pid, path):
